@@ -99,16 +99,25 @@ int main()
       bool threw = false;
       std::string what;
       try {
-        g.set_decay_category(bxdecay0::decay0_generator::DECAY_CATEGORY_DBD);
-        g.set_decay_isotope(iso);
-        g.set_decay_dbd_level(level);
-        g.set_decay_dbd_mode((bxdecay0::dbd_mode_type)mode);
-        if (win == "valid") g.set_decay_dbd_esum_range(0.0, 5.0);
-        if (win == "lower") g.set_decay_dbd_esum_range(0.0, std::nan(""));   // half-open windows: one bound left undefined
-        if (win == "upper") g.set_decay_dbd_esum_range(std::nan(""), 5.0);
-        if (win == "inverted") g.set_decay_dbd_esum_range(2.0, 1.0);
-        if (win == "empty") g.set_decay_dbd_esum_range(0.001, 0.001);
-        if (win == "beyond") g.set_decay_dbd_esum_range(5.0, 6.0); // above every tabulated Q value
+        // the verdict is a function of the CONFIGURATION, not of the order of the configuration calls: three call orders,
+        // rotated over the cases (0: category, isotope, level, mode, window; 1: the reverse; 2: window before mode)
+        auto set_win = [&] {
+          if (win == "valid") g.set_decay_dbd_esum_range(0.0, 5.0);
+          if (win == "lower") g.set_decay_dbd_esum_range(0.0, std::nan(""));   // half-open windows: one bound left undefined
+          if (win == "upper") g.set_decay_dbd_esum_range(std::nan(""), 5.0);
+          if (win == "inverted") g.set_decay_dbd_esum_range(2.0, 1.0);
+          if (win == "empty") g.set_decay_dbd_esum_range(0.001, 0.001);
+          if (win == "beyond") g.set_decay_dbd_esum_range(5.0, 6.0); // above every tabulated Q value
+        };
+        auto set_cat  = [&] { g.set_decay_category(bxdecay0::decay0_generator::DECAY_CATEGORY_DBD); };
+        auto set_iso  = [&] { g.set_decay_isotope(iso); };
+        auto set_lev  = [&] { g.set_decay_dbd_level(level); };
+        auto set_mode = [&] { g.set_decay_dbd_mode((bxdecay0::dbd_mode_type)mode); };
+        switch (n % 3) {
+        case 0: set_cat(); set_iso(); set_lev(); set_mode(); set_win(); break;
+        case 1: set_win(); set_mode(); set_lev(); set_iso(); set_cat(); break;
+        default: set_cat(); set_win(); set_iso(); set_mode(); set_lev(); break;
+        }
         g.initialize(prng);
       } catch (std::exception & e) {
         threw = true;
